@@ -184,6 +184,18 @@ func c16MinLevelTies(c *Ctx) {
 	}
 }
 
+// c16CKKSOutSets: output parameters (same ring degree, other moduli, other default scale) per input set
+var c16CKKSOutCache map[string]*c16CKKSSet
+
+func c16CKKSOutFor(set c16CKKSSet) *c16CKKSSet {
+	if c16CKKSOutCache == nil {
+		o4 := c16NewCKKS("out4", 4, []int{45, 38, 52}, []int{54}, 30)
+		o5 := c16NewCKKS("out5", 5, []int{50, 40}, nil, 22)
+		c16CKKSOutCache = map[string]*c16CKKSSet{"4": &o4, "5": &o5}
+	}
+	return c16CKKSOutCache[I(set.params.LogN())]
+}
+
 var c16CKKSCache []c16CKKSSet
 
 func c16CKKSSets() []c16CKKSSet {
@@ -328,6 +340,17 @@ func c16CKKS(c *Ctx, ns []int) {
 				fn := funcs[c.rng.Intn(len(funcs))]
 				c16CKKSRun(c, set, n, lin, set.maxQ(), sigma, logBound, logSlots, &fn, true)
 			}
+			// output parameters ≠ input parameters (other moduli, other default scale), via the constructor and via WithParams
+			for _, wp := range []bool{false, true} {
+				c16OutSet, c16UseWithParams = c16CKKSOutFor(set), wp
+				lo := c.rng.Intn(c16OutSet.maxQ() + 1)
+				c16CKKSRun(c, set, n, set.maxQ(), lo, 3.2, logBound, set.cp.LogMaxSlots(), nil, true)
+				if c.Thorough() || wp {
+					fn := funcs[c.rng.Intn(len(funcs))]
+					c16CKKSRun(c, set, n, minLevel, c16OutSet.maxQ(), 25.6, logBound, set.cp.LogMaxSlots()-1, &fn, true)
+				}
+				c16OutSet, c16UseWithParams = nil, false
+			}
 			// a level below the minimum: the mask bound exceeds Q and GenShare must refuse
 			c16CKKSTooLow(c, set, n)
 		}
@@ -409,8 +432,10 @@ func c16CKKSRun(c *Ctx, set c16CKKSSet, n, lin, lout int, sigma float64, logBoun
 		s2e := make([]mpckks.ShareToEncProtocol, n)
 		tE := make([]ring.Sampler, n)
 		tS := make([]ring.Sampler, n)
+		copiedAll := make([]bool, n)
 		for i := range e2s {
 			copied := i > 0 && c.rng.Intn(2) == 0
+			copiedAll[i] = copied
 			var err error
 			mark := RandMark()
 			if !copied {
@@ -447,7 +472,8 @@ func c16CKKSRun(c *Ctx, set c16CKKSSet, n, lin, lout int, sigma float64, logBoun
 				panic("c16: twin ckks mask differs")
 			}
 			e := c16SampleSigned(params, tE[i], lin, false)
-			c16Record(fmt.Sprintf("ckks_e2s sigma=%g", sigma), e)
+			c16Record(fmt.Sprintf("ckks_e2s copy=%t sigma=%g", copiedAll[i], sigma),
+				c16Residual(params, lin, true, pub[i].Value, []c16Term{{ct.Value[1], keys.sk[i], 1}}, nil, []ring.Poly{c16CKKSEmbed(params, lin, ct.MetaData, sec[i].Value[:dslots])}))
 			rows[i] = Mat(c16QRows(params, pub[i].Value, lin, true))
 			c.Emit(fmt.Sprintf("ckks_e2s %s %s %s %s %s", hdrI, c1, IVec(keys.s[i]), IVec(e), c16BigVec(mask)), rows[i])
 			c.Count("ckks_e2s")
@@ -496,7 +522,8 @@ func c16CKKSRun(c *Ctx, set c16CKKSSet, n, lin, lout int, sigma float64, logBoun
 				panic(err)
 			}
 			e := c16SampleSigned(params, tS[i], lout, false)
-			c16Record(fmt.Sprintf("ckks_s2e sigma=%g", sigma), e)
+			c16Record(fmt.Sprintf("ckks_s2e copy=%t sigma=%g", copiedAll[i], sigma),
+				c16Residual(params, lout, true, sh[i].Value, []c16Term{{crp.Value, keys.sk[i], -1}}, []ring.Poly{c16CKKSEmbed(params, lout, ct.MetaData, final[i].Value[:dslots])}, nil))
 			c.Emit(fmt.Sprintf("ckks_s2e %s %s %s %s %s", hdrO, a, IVec(keys.s[i]), IVec(e), c16BigVec(final[i].Value[:dslots])),
 				Mat(c16QRows(params, sh[i].Value, lout, true)))
 			c.Count("ckks_s2e")
@@ -544,25 +571,47 @@ func c16CKKSRun(c *Ctx, set c16CKKSSet, n, lin, lout int, sigma float64, logBoun
 		}
 		c.Probe("transform_prec", fmt.Sprintf("ckks set=%s prec=%d f=%s", set.name, logBound, name), "C16-ckks-transform-prec53", detail)
 	}
+	// output parameters: the same, or (c16OutSet) parameters of the same ring degree with other moduli and another
+	// default scale, given to the constructor or installed afterwards with WithParams
+	oset, okeys := set, keys
+	if c16OutSet != nil {
+		oset = *c16OutSet
+		okeys = c14GenKeys(oset.c14Set, n)
+		label += " out=" + oset.name + fmt.Sprintf(" withParams=%t", c16UseWithParams)
+	}
+	oparams := oset.params
+	noiseOut := c16Noise(oparams, sigma)
 	protos := make([]mpckks.MaskedLinearTransformationProtocol, n)
 	tE := make([]ring.Sampler, n)
 	tS := make([]ring.Sampler, n)
+	copied := make([]bool, n)
 	for i := range protos {
 		mark := RandMark()
+		iE, iS := 0, 1
 		if i == 0 || c.rng.Intn(2) == 0 {
 			var err error
-			if protos[i], err = mpckks.NewMaskedLinearTransformationProtocol(set.cp, set.cp, prec, flood); err != nil {
+			if c16OutSet != nil && c16UseWithParams {
+				var p0 mpckks.MaskedLinearTransformationProtocol
+				if p0, err = mpckks.NewMaskedLinearTransformationProtocol(set.cp, set.cp, prec, flood); err != nil {
+					panic(err)
+				}
+				// WithParams: a new ShareToEnc protocol (one read), then a ShallowCopy of the EncToShare protocol (one read)
+				protos[i] = p0.WithParams(oset.cp)
+				iE, iS = 3, 2
+			} else if protos[i], err = mpckks.NewMaskedLinearTransformationProtocol(set.cp, oset.cp, prec, flood); err != nil {
 				panic(err)
 			}
 		} else {
-			protos[i] = protos[0].ShallowCopy()
+			protos[i] = protos[c.rng.Intn(i)].ShallowCopy()
+			copied[i] = true
 		}
-		tE[i], _ = ring.NewSampler(TwinPRNG(mark, 0), ringQ, noise, false)
-		tS[i], _ = ring.NewSampler(TwinPRNG(mark, 1), ringQ, noise, false)
+		tE[i], _ = ring.NewSampler(TwinPRNG(mark, iE), ringQ, noise, false)
+		tS[i], _ = ring.NewSampler(TwinPRNG(mark, iS), oparams.RingQ(), noiseOut, false)
 	}
 	crp := protos[0].SampleCRP(lout, crs)
-	a := Mat(c16QRows(params, crp.Value, lout, true))
-	defScale := c16ScaleInt(set.cp.DefaultScale(), false)
+	a := Mat(c16QRows(oparams, crp.Value, lout, true))
+	hdrO = fmt.Sprintf("%s %d %d", Vec(oset.qs(lout)), set.n, gap)
+	defScale := c16ScaleInt(oset.cp.DefaultScale(), false)
 	inScale := c16ScaleInt(ct.Scale, true)
 
 	shares := make([]multiparty.RefreshShare, n)
@@ -571,23 +620,25 @@ func c16CKKSRun(c *Ctx, set c16CKKSSet, n, lin, lout int, sigma float64, logBoun
 	for i := range protos {
 		shares[i] = protos[i].AllocateShare(lin, lout)
 		mark := RandMark()
-		if err := protos[i].GenShare(keys.sk[i], keys.sk[i], logBound, ct, crp, tf, &shares[i]); err != nil {
+		if err := protos[i].GenShare(keys.sk[i], okeys.sk[i], logBound, ct, crp, tf, &shares[i]); err != nil {
 			panic(err)
 		}
 		mask := c16Mask(mark, logBound, dslots)
 		allMasks = append(allMasks, mask)
 		e1 := c16SampleSigned(params, tE[i], lin, false)
-		e2 := c16SampleSigned(params, tS[i], lout, false)
-		c16Record(fmt.Sprintf("ckks_refresh sigma=%g", sigma), e1)
-		c16Record(fmt.Sprintf("ckks_refresh sigma=%g", sigma), e2)
+		e2 := c16SampleSigned(oparams, tS[i], lout, false)
 		rowsE[i] = Mat(c16QRows(params, shares[i].EncToShareShare.Value, lin, true))
-		rowsS[i] = Mat(c16QRows(params, shares[i].ShareToEncShare.Value, lout, true))
+		rowsS[i] = Mat(c16QRows(oparams, shares[i].ShareToEncShare.Value, lout, true))
 		c.Emit(fmt.Sprintf("ckks_e2s %s %s %s %s %s", hdrI, c1, IVec(keys.s[i]), IVec(e1), c16BigVec(mask)), rowsE[i])
-		mask2 := c16CKKSTransform(set, fn, prec, ct.MetaData, mask, defScale, inScale)
+		mask2 := c16CKKSTransform(oset, fn, prec, ct.MetaData, mask, defScale, inScale)
+		c16Record(fmt.Sprintf("ckks_refresh copy=%t sigma=%g", copied[i], sigma),
+			c16Residual(params, lin, true, shares[i].EncToShareShare.Value, []c16Term{{ct.Value[1], keys.sk[i], 1}}, nil, []ring.Poly{c16CKKSEmbed(params, lin, ct.MetaData, mask)}))
+		c16Record(fmt.Sprintf("ckks_refresh copy=%t sigma=%g", copied[i], sigma),
+			c16Residual(oparams, lout, true, shares[i].ShareToEncShare.Value, []c16Term{{crp.Value, okeys.sk[i], -1}}, []ring.Poly{c16CKKSEmbed(oparams, lout, ct.MetaData, mask2)}, nil))
 		if fn == nil {
 			c.Emit(fmt.Sprintf("ckks_scale %s %s %s", defScale, inScale, c16BigVec(mask)), c16BigVec(mask2))
 		}
-		c.Emit(fmt.Sprintf("ckks_s2e %s %s %s %s %s", hdrO, a, IVec(keys.s[i]), IVec(e2), c16BigVec(mask2)), rowsS[i])
+		c.Emit(fmt.Sprintf("ckks_s2e %s %s %s %s %s", hdrO, a, IVec(okeys.s[i]), IVec(e2), c16BigVec(mask2)), rowsS[i])
 		c.Count("ckks_refresh_share")
 	}
 	add := func(x, y multiparty.RefreshShare) (multiparty.RefreshShare, error) {
@@ -612,9 +663,9 @@ func c16CKKSRun(c *Ctx, set c16CKKSSet, n, lin, lout int, sigma float64, logBoun
 	t := c14RandTree(c, c14RandPerm(c, n))
 	agg, _ := c14Eval(t, shares, add)
 	aggE := Mat(c16QRows(params, agg.EncToShareShare.Value, lin, true))
-	aggS := Mat(c16QRows(params, agg.ShareToEncShare.Value, lout, true))
+	aggS := Mat(c16QRows(oparams, agg.ShareToEncShare.Value, lout, true))
 	c.Emit("agg "+Vec(set.qs(lin))+" "+t.String()+" "+I(n)+" "+strings.Join(rowsE, " "), aggE)
-	c.Emit("agg "+Vec(set.qs(lout))+" "+t.String()+" "+I(n)+" "+strings.Join(rowsS, " "), aggS)
+	c.Emit("agg "+Vec(oset.qs(lout))+" "+t.String()+" "+I(n)+" "+strings.Join(rowsS, " "), aggS)
 
 	// aggregated into a freshly allocated share the MetaData is not carried over
 	c16RefreshMetaProbe(c, label, func() error {
@@ -626,7 +677,7 @@ func c16CKKSRun(c *Ctx, set c16CKKSSet, n, lin, lout int, sigma float64, logBoun
 		if err != nil {
 			return err
 		}
-		return protos[0].Transform(ct.CopyNew(), tf, crp, ag, ckks.NewCiphertext(set.cp, 1, set.maxQ()))
+		return protos[0].Transform(ct.CopyNew(), tf, crp, ag, ckks.NewCiphertext(oset.cp, 1, oset.maxQ()))
 	}, n)
 
 	e2s, _ := mpckks.NewEncToShareProtocol(set.cp, flood)
@@ -634,16 +685,16 @@ func c16CKKSRun(c *Ctx, set c16CKKSSet, n, lin, lout int, sigma float64, logBoun
 	e2s.GetShare(nil, agg.EncToShareShare, ct, &maskedShare)
 	masked := maskedShare.Value[:dslots]
 
-	out := ckks.NewCiphertext(set.cp, 1, set.maxQ())
+	out := ckks.NewCiphertext(oset.cp, 1, oset.maxQ())
 	ctIn := ct.CopyNew()
 	res := Try(func() string {
 		if err := protos[0].Transform(ctIn, tf, crp, agg, out); err != nil {
 			return "err"
 		}
-		return c16BigVec(masked) + "|" + Mat(c16QRows(params, out.Value[0], lout, true)) + "|" + Mat(c16QRows(params, out.Value[1], lout, true))
+		return c16BigVec(masked) + "|" + Mat(c16QRows(oparams, out.Value[0], lout, true)) + "|" + Mat(c16QRows(oparams, out.Value[1], lout, true))
 	})
 	if fn == nil {
-		c.Emit(fmt.Sprintf("ckks_fin %s %s %d %d %d %s %s %s %s %s %s", Vec(set.qs(lin)), Vec(set.qs(lout)), set.n, gap, dslots,
+		c.Emit(fmt.Sprintf("ckks_fin %s %s %d %d %d %s %s %s %s %s %s", Vec(set.qs(lin)), Vec(oset.qs(lout)), set.n, gap, dslots,
 			aggE, Mat(c16QRows(params, ct.Value[0], lin, true)), aggS, a, defScale, inScale), res)
 		c.Count("ckks_fin")
 	}
@@ -659,16 +710,16 @@ func c16CKKSRun(c *Ctx, set c16CKKSSet, n, lin, lout int, sigma float64, logBoun
 		if out.Level() != lout {
 			return fmt.Sprintf("level=%d_want=%d", out.Level(), lout)
 		}
-		if out.Scale.Cmp(set.cp.DefaultScale()) != 0 {
-			return "output_scale_is_not_the_default_scale"
+		if out.Scale.Cmp(oset.cp.DefaultScale()) != 0 {
+			return "output_scale_is_not_the_default_scale_of_the_output_parameters"
 		}
 		if d := c16MasksFit(params, allMasks, lin, inScaleLog); d != "" {
 			return d
 		}
 		// receivers allocated at every level, pre-filled with junk: same output at the CRP's level
 		var others []*rlwe.Ciphertext
-		for r := 0; r <= set.maxQ(); r++ {
-			o := c14RandCt(c, params, 1, r)
+		for r := 0; r <= oset.maxQ(); r++ {
+			o := c14RandCt(c, oparams, 1, r)
 			if err := protos[0].Transform(ct.CopyNew(), tf, crp, agg, o); err != nil {
 				return fmt.Sprintf("Transform_error_receiver_level_%d", r)
 			}
@@ -677,11 +728,11 @@ func c16CKKSRun(c *Ctx, set c16CKKSSet, n, lin, lout int, sigma float64, logBoun
 		if d := c16SameCt(out, others, lout); d != "" {
 			return d
 		}
-		ratio := math.Exp2(float64(set.cp.LogDefaultScale() - inScaleLog))
+		ratio := math.Exp2(float64(oset.cp.LogDefaultScale() - inScaleLog))
 		if fn == nil {
 			// exact: phase_out − phase_in·Δout/Δin within N·(B·ratio + B) + N + 2
 			bound := big.NewInt(int64(float64(int64(n)*Bn)*(ratio+1)) + int64(n) + 2)
-			ph := c16Phase(params, out, keys.ideal)
+			ph := c16Phase(oparams, out, okeys.ideal)
 			for j := range ph {
 				want := new(big.Int).Mul(phaseIn[j], defScale)
 				want.Quo(want, inScale)
@@ -696,7 +747,7 @@ func c16CKKSRun(c *Ctx, set c16CKKSSet, n, lin, lout int, sigma float64, logBoun
 		}
 		// within precision (labelled): decoded slots
 		have := make([]complex128, len(values))
-		if err := set.enc.Decode(rlwe.NewDecryptor(set.cp, keys.ideal).DecryptNew(out), have); err != nil {
+		if err := oset.enc.Decode(rlwe.NewDecryptor(oset.cp, okeys.ideal).DecryptNew(out), have); err != nil {
 			return "decode_error"
 		}
 		want := make([]*bignum.Complex, len(values))
@@ -711,7 +762,7 @@ func c16CKKSRun(c *Ctx, set c16CKKSSet, n, lin, lout int, sigma float64, logBoun
 		}
 		// coefficient noise ≤ nb; a slot is a sum of N_ring coefficients
 		nb := float64(int64(n)*Bn)*(ratio+1) + float64(n) + 2 + float64(set.n)*21
-		tol := nb * float64(set.n) * 4 / math.Exp2(float64(set.cp.LogDefaultScale()))
+		tol := nb * float64(set.n) * 4 / math.Exp2(float64(oset.cp.LogDefaultScale()))
 		for i := range want {
 			re, _ := want[i][0].Float64()
 			im, _ := want[i][1].Float64()
@@ -744,6 +795,21 @@ func c16MasksFit(params rlwe.Parameters, masks [][]*big.Int, lvl, logScale int) 
 		}
 	}
 	return ""
+}
+
+// c16OutSet / c16UseWithParams select output parameters different from the input's for the next refresh run.
+var (
+	c16OutSet        *c16CKKSSet
+	c16UseWithParams bool
+)
+
+// c16CKKSEmbed: the integer vector embedded in R_Q (NTT domain) as the protocols add it to a public share.
+func c16CKKSEmbed(params rlwe.Parameters, lvl int, md *rlwe.MetaData, v []*big.Int) ring.Poly {
+	r := params.RingQ().AtLevel(lvl)
+	buf := r.NewPoly()
+	r.SetCoefficientsBigint(v, buf)
+	rlwe.NTTSparseAndMontgomery(r, md, buf)
+	return buf
 }
 
 func c16RefreshMetaProbe(c *Ctx, label string, f func() error, n int) {
